@@ -1621,8 +1621,12 @@ impl KotoVm {
                         );
                     };
 
-                    let end = if inclusive { end + 1 } else { end };
-                    end + index as i64
+                    let end = if inclusive {
+                        end.saturating_add(1)
+                    } else {
+                        end
+                    };
+                    end.saturating_add(index as i64)
                 } else {
                     let Some(start) = r.start() else {
                         return runtime_error!(
@@ -1631,7 +1635,7 @@ impl KotoVm {
                             index
                         );
                     };
-                    start + index as i64
+                    start.saturating_add(index as i64)
                 }
                 .into();
 
